@@ -70,6 +70,14 @@ var targets = []target{
 	{Group: "Params", Mod: "service", Pkg: "types", Func: "validateTxSizeLimit", Lean: "ServiceValidateTxSizeLimit"},
 	{Group: "Params", Mod: "service", Pkg: "types", Func: "validateRestrictedServiceFeeDenom", Lean: "ServiceValidateRestrictedServiceFeeDenom"},
 	{Group: "Params", Mod: "service", Pkg: "types", Func: "Params.Validate", Lean: "ServiceParamsValidate"},
+	{Group: "Coinswap", Mod: "coinswap", Pkg: "keeper", Func: "Keeper.calculateWithExactInput", Lean: "calcExactIn",
+		Locals: []string{"boughtTokenAmt"}, Guards: true, Conds: true},
+	{Group: "Coinswap", Mod: "coinswap", Pkg: "keeper", Func: "Keeper.calculateWithExactOutput", Lean: "calcExactOut",
+		Locals: []string{"soldTokenAmt"}, Guards: true, Conds: true},
+	{Group: "Coinswap", Mod: "coinswap", Pkg: "keeper", Func: "Keeper.TradeExactInputForOutput", Lean: "TradeExactIn", Guards: true, Conds: true},
+	{Group: "Coinswap", Mod: "coinswap", Pkg: "keeper", Func: "Keeper.TradeInputForExactOutput", Lean: "TradeExactOut", Guards: true, Conds: true},
+	{Group: "Coinswap", Mod: "coinswap", Pkg: "keeper", Func: "Keeper.doubleTradeExactInputForOutput", Lean: "DoubleExactIn", Guards: true, Conds: true},
+	{Group: "Coinswap", Mod: "coinswap", Pkg: "keeper", Func: "Keeper.doubleTradeInputForExactOutput", Lean: "DoubleExactOut", Guards: true, Conds: true},
 	{Group: "Coinswap", Mod: "coinswap", Pkg: "keeper", Func: "Keeper.AddLiquidity", Lean: "AddLiquidity",
 		Locals: []string{"mintLiquidityAmt", "depositAmt"}, Guards: true, Conds: true},
 	{Group: "Coinswap", Mod: "coinswap", Pkg: "keeper", Func: "Keeper.RemoveLiquidity", Lean: "RemoveLiquidity",
